@@ -59,6 +59,10 @@ def make_file(d, variant, rows):
         raw = _image(rows)
         hdu = fits.PrimaryHDU(raw)
         ref = raw * 2.0
+    elif variant == "bscale_i16":
+        raw = _image(rows).astype(np.int16)
+        hdu = fits.PrimaryHDU(raw)
+        ref = raw.astype(np.float64) * 0.5
     elif variant == "compressed":
         from AegeanTools import fits_tools
         raw = _image(rows)
@@ -74,6 +78,8 @@ def make_file(d, variant, rows):
     _header_extra(hdu, rows)
     if variant == "bscale":
         hdu.header['BSCALE'] = 2.0
+    if variant == "bscale_i16":
+        hdu.header['BSCALE'] = 0.5
     hdu.writeto(p, overwrite=True)
     return p, ref, cube
 
@@ -225,7 +231,7 @@ def run(ctx):
     if quick:
         for rows in range(1, 101):
             jobs.append(("plain", rows, allN))
-        for v in ("cube3", "cube4", "bscale", "compressed"):
+        for v in ("cube3", "cube4", "bscale", "bscale_i16", "compressed"):
             for rows in (1, 2, 7, 31, 64, 100):
                 if v == "compressed" and rows < 2:
                     continue      # compress needs >= 2 rows (C15's domain)
@@ -237,7 +243,7 @@ def run(ctx):
     else:
         for rows in range(1, 2001):
             jobs.append(("plain", rows, allN))
-        for v in ("cube3", "cube4", "bscale", "compressed"):
+        for v in ("cube3", "cube4", "bscale", "bscale_i16", "compressed"):
             for rows in list(range(1, 130)) + [997, 1000]:
                 if v == "compressed" and rows < 2:
                     continue
@@ -259,7 +265,7 @@ def run(ctx):
                        "load_image_band; distinct = distinct (variant, rows, n)")
     ctx.cov["exhaustive"] = True
     ctx.cov["domain"] = {"plain_rows_exhaustive": "1..%d" % (100 if quick else 2000),
-                         "bands": "1..64", "variants": ["plain", "cube3", "cube4", "bscale", "compressed"]}
+                         "bands": "1..64", "variants": ["plain", "cube3", "cube4", "bscale", "bscale_i16", "compressed"]}
     ctx.sample(recs[200] if len(recs) > 200 else recs[0])
     ctx.sample(recs[-1])
     ctx.assumptions += ["astropy.io.fits reads back what it wrote",
